@@ -268,6 +268,29 @@ def cases(ctx):
         if abs(d - 20) < 1e-3:
             continue
         yield dict(op="is60 " + m, real=("pyModeS.commb.is60", [m]), expect=str(d <= 20), tag="is60-alt")
+    # --- call-history independence: the same MB payload under different headers (DF21, DF20 with a consistent and an
+    #     inconsistent altitude), every order, each answer must equal the answer of a fresh evaluation
+    from pyModeS.extra import aero
+    for _ in range(ctx.n(150, 3000)):
+        ias, mach = rng.randrange(150, 400), rng.randrange(80, 230)
+        payload = mb([(13, 1, 1), (14, 10, ias), (24, 1, 1), (25, 10, mach)])
+        variants = []
+        for _k in range(200):
+            alt_n = rng.randrange(40, 1800)
+            d = abs(ias - aero.mach2cas(mach * 0.004, (alt_n * 25 - 1000) * aero.ft) / aero.kts)
+            if abs(d - 20) < 1e-3:
+                continue
+            b11 = spec.bits_of(alt_n, 11)
+            code = spec.val_of(b11[:6] + [0] + [b11[6]] + [1] + b11[7:])
+            variants.append((code, d <= 20))
+            if len({v[1] for v in variants}) == 2 and len(variants) >= 2:
+                break
+        hdrs = [(20, c, ok) for c, ok in variants[-2:]] + [(21, None, True)]
+        rng.shuffle(hdrs)
+        for df_, code, ok in hdrs + hdrs[::-1]:
+            m = frame(rng, payload, df=df_, alt13=code)
+            yield dict(op="is60 " + m, real=("pyModeS.commb.is60", [m]), expect=str(ok), tag="is60-sequence")
+            yield dict(op="infer0 " + m, real=(I, [m]), pred=["pred_contains" if ok else "pred_excludes", "BDS60"], tag="infer-sequence")
     # --- is50or60 on payloads that satisfy both rule sets (sparse random payloads do so often) and on one-sided ones
     n5060 = 0
     for _ in range(ctx.n(6000, 200000)):
